@@ -117,7 +117,7 @@ class FormulaParser:
             Union[None, Token, ASTNode],
             Structured[OrderedSet[Term]],
         ] = formula
-        context = LayeredMapping(context or {}, self.context)
+        context = LayeredMapping(context if context is not None else {}, self.context)
         if target >= self.Target.TOKENS:
             out = tokens = self.get_tokens_from_formula(formula, context=context)
         if target >= self.Target.AST:
